@@ -102,6 +102,31 @@ def classify_u256(repo):
     if prim is None:
         raise FactsError("conditional-subtraction primitive (U256, &modulus, carry) not found")
     closed = {prim.rec["path"]: {"class": "prim", "mod": 2, "needs": []}}
+    # helper functions whose *result* is a value that just went through the conditional subtraction (a phase split off a
+    # modular operation): {def path: index of its modulus parameter}
+    reduced_fns = {}
+    for hb in F.fn_bodies():
+        if hb.rec.get("output") != U256 or hb is prim:
+            continue
+        rvh = repo.tb(hb).return_value()
+        ks = set()
+        okh = True
+        for a in alts(rvh):
+            v = a
+            while v[0] == "field" and v[2] == 0:
+                v = v[1]
+            if v[0] == "mutcall" and v[1].d == prim.rec["path"] and v[3] == 0:
+                m = strip(v[2][1])
+                if m[0] == "init" and isinstance(m[1], tuple):
+                    ks.add(m[1][1])
+                elif m[0] == "param":
+                    ks.add(m[1])
+                else:
+                    okh = False
+            else:
+                okh = False
+        if okh and len(ks) == 1:
+            reduced_fns[hb.rec["path"]] = ks.pop()
     for b in methods:
         ins = b.rec.get("inputs") or []
         if not ins or ins[0] != "&mut " + U256 or b is prim:
@@ -119,6 +144,14 @@ def classify_u256(repo):
                 v = v[1]
             if v[0] == "mutcall" and v[1].d == prim.rec["path"] and v[3] == 0:
                 m = strip(v[2][1])
+                if m[0] == "init" and isinstance(m[1], tuple):
+                    mods.add(m[1][1])
+                elif m[0] == "param":
+                    mods.add(m[1])
+                else:
+                    ok = False
+            elif v[0] == "call" and v[1].d in reduced_fns and len(v[2]) >= reduced_fns[v[1].d]:
+                m = strip(v[2][reduced_fns[v[1].d] - 1])
                 if m[0] == "init" and isinstance(m[1], tuple):
                     mods.add(m[1][1])
                 elif m[0] == "param":
